@@ -89,7 +89,9 @@ Step(e) ==
         anyLoose == \E f \in FeedIds : isLoose(f)
         gd == IF anyLoose THEN 0 ELSE e.gor - wantGor
         fFeed(f) ==
-            F(~(nd[f] # 0 /\ nd[f] = lag.n[f] /\ nd[f] # lag.nRep[f]), {"C16", "C08"}, e,
+            \* (a checkpointed feed that is not told of a mutation moves its checkpoint past it with the next one: C15)
+            F(~(nd[f] # 0 /\ nd[f] = lag.n[f] /\ nd[f] # lag.nRep[f]),
+              IF nd[f] < 0 /\ (M.fd[f].kind = "ckpt" \/ N.fd[f].kind = "ckpt") THEN {"C16", "C08", "C15"} ELSE {"C16", "C08"}, e,
               <<IF nd[f] < 0 THEN "feed-starved" ELSE "unexpected-callback", f, M.fd[f].st, M.fd[f].kind>>, 0, nd[f])
             + F(~(f \in dd /\ f \in lag.done /\ f \notin lag.doneRep), {"C16", "C20"}, e,
                 <<IF e.fd[f].done THEN "feed-ended-unexpectedly" ELSE "feed-not-ended", f, N.fd[f].kind>>, N.fd[f].done, e.fd[f].done)
